@@ -365,8 +365,12 @@ def rule_t3(ctx, facts):
             if blk["cleanup"]:
                 continue
             for si, st in enumerate(blk["stmts"]):
-                if st["k"] == "assign" and st["dst"]["local"] == 1:
-                    fs = [e["name"] for e in st["dst"]["proj"] if isinstance(e, dict) and "field" in e]
+                if st["k"] == "assign" and st["dst"]["proj"]:
+                    # through `self` or a reborrow of it (an inlined `&mut self` helper writes through its own parameter)
+                    root, cf = canon_place(b, st["dst"]) if st["dst"]["local"] != 1 else (1, None)
+                    if root != 1:
+                        continue
+                    fs = list(cf) if cf is not None else [e["name"] for e in st["dst"]["proj"] if isinstance(e, dict) and "field" in e]
                     if fs in (["index"], ["base_index"]):
                         f = ev.operand(st["rv"]["use"]) if "use" in st["rv"] else TOP
                         out.append((fs[0], f, st["span"], (bi, si)))
@@ -489,18 +493,48 @@ def rule_t3(ctx, facts):
                             okt = True
     ctx.inst("T3", rs, "pop restores table", rs.span, okt, "table := popped frame's table" if okt else "after popping a frame the table is not restored from the frame")
     # push_state stores (t, n, i) into the right fields; next() passes (current table, current index, its length)
-    okp = False
+    # every frame that becomes the top of the stack -- freshly boxed or recycled from `spare` -- has table, index and length set from the
+    # arguments on the way: must-pass-through per field, from entry to the store into self.stack
+    from .analysis import reach, entry
     fl = flow(ps)
-    for blk in ps.blocks:
-        for st in blk["stmts"]:
-            if st["k"] == "assign" and "agg" in st["rv"] and st["rv"]["agg"].get("adt", "").endswith("TableStack"):
-                names = st["rv"]["agg"]["fields"]
-                m = {}
-                for nme, o in zip(names, st["rv"]["ops"]):
-                    r = op_root(o)
-                    m[nme] = {k for k in range(1, ps.nargs + 1) if r is not None and fl.derives_from_arg(r, k)}
-                okp = m.get("table") == {2} and m.get("index") == {3} and m.get("length") == {4}
-    ctx.inst("T3", ps, "frame fields", ps.span, okp, "TableStack { table: t, index: i, length: n }" if okp else "push_state stores its arguments into the wrong frame fields")
+    want = {"table": 2, "index": 3, "length": 4}
+    sets = {f: set() for f in want}
+    wrong = []
+
+    def from_args(o):
+        r = op_root(o)
+        return {k for k in range(1, ps.nargs + 1) if r is not None and fl.derives_from_arg(r, k)}
+    for bi, blk in enumerate(ps.blocks):
+        for si, st in enumerate(blk["stmts"]):
+            if st["k"] != "assign":
+                continue
+            if "agg" in st["rv"] and st["rv"]["agg"].get("adt", "").endswith("TableStack"):
+                for nme, o in zip(st["rv"]["agg"]["fields"], st["rv"]["ops"]):
+                    if nme in want:
+                        (sets[nme].add(Point(bi, si)) if from_args(o) == {want[nme]} else wrong.append((nme, st["span"])))
+            else:
+                fs = [e for e in st["dst"]["proj"] if isinstance(e, dict) and "field" in e]
+                if fs and fs[-1]["of"].endswith("TableStack") and fs[-1]["name"] in want and "use" in st["rv"]:
+                    nme = fs[-1]["name"]
+                    (sets[nme].add(Point(bi, si)) if from_args(st["rv"]["use"]) == {want[nme]} else wrong.append((nme, st["span"])))
+    pushes = []
+    for bi, blk in enumerate(ps.blocks):
+        if blk["cleanup"]:
+            continue
+        for si, st in enumerate(blk["stmts"]):
+            if st["k"] == "assign" and st["dst"]["proj"] and canon_place(ps, st["dst"]) == (1, ("stack",)):
+                pushes.append((Point(bi, si), st["span"]))
+    okp = bool(pushes) and not wrong and all(sets[f] for f in want)
+    why = "push_state stores its arguments into the wrong frame fields (%s)" % ", ".join("%s at %s" % w for w in wrong) if wrong else \
+        ("push_state never stores a frame into self.stack" if not pushes else "")
+    for f in want:
+        r = reach(ps, [entry(ps)], avoid=sets[f])
+        bad = [sp for pt, sp in pushes if pt in r]
+        if bad and not why:
+            okp = False
+            why = ("a frame becomes the top of the stack at %s on a path that never sets its `%s` from the argument: a frame recycled from `spare` keeps "
+                   "the %s of an earlier descent, and popping it resumes the walk at the wrong place" % (bad[0], f, f))
+    ctx.inst("T3", ps, "frame fields", ps.span, okp, "TableStack { table: t, index: i, length: n } on every path to the push" if okp else why)
     ev = evaluator(nx)
     okc = False
     for c in nx.calls:
@@ -519,7 +553,59 @@ def rule_t3(ctx, facts):
                      "the frame pushed when descending into a forwarded table does not record (current table, current index, its length)")
 
 
+def rule_t5(ctx, facts, rule="T5"):
+    """the successor of the node yielded last is yielded next: in NodeIter::next, on the non-null edge of the test of the `next` link just
+    loaded, every path to a return or to the next bin load wraps (something derived from) that successor in `Some` -- whatever kind of
+    entry it is.  A successor that is only yielded when a variant-selective accessor says so ends a tree bin after its first entry."""
+    from .analysis import return_points
+    nx = [b for b in facts.bodies if b.sid.endswith("NodeIter<'g, K, V> as std::iter::Iterator>::next")
+          or (b.name == "next" and "NodeIter" in (b.impl or {}).get("self_head", ""))]
+    if len(nx) != 1:
+        ctx.fail_closed("%s: NodeIter::next not found" % rule)
+        return
+    b = nx[0]
+    fl = flow(b)
+    loads = [c for c in b.calls if is_link_load(c) == "load" and ("node::Node", "next") in receiver_field(b, c, 0) and not b.is_cleanup(c.b)]
+    if not loads:
+        ctx.fail_closed("%s: NodeIter::next does not load Node.next" % rule)
+        return
+    rets = set(return_points(b))
+    bins = {c.point for c in b.calls if is_link_load(c) == "bin"}
+    for c in loads:
+        N = c.dst_local()
+        holders = fl.flows_to(N)
+        edges = []
+        for blk in range(len(b.blocks)):
+            cd = cond_of(b, blk)
+            if not cd or cd.get("arg") is None:
+                continue
+            # `!next.is_null()`, or the Some edge of `next.as_ref()` / `Option<&BinEntry>` derived from the link by views only
+            if cd["kind"] == "is_null" and cd["arg"] in fl.copies_of(N):
+                edges.append((blk, cd["false"]))
+            elif cd["kind"] == "is_none" and N in fl.roots(cd["arg"], through_agg=False)[1]:
+                edges.append((blk, cd["false"]))
+        if not edges:
+            ctx.inst(rule, b, "successor yielded", c.span, False, "the successor loaded at %s is never tested for null" % c.span)
+            continue
+        somes = set()
+        for bi, blk in enumerate(b.blocks):
+            for si, st in enumerate(blk["stmts"]):
+                if st["k"] == "assign" and "agg" in st["rv"] and st["rv"]["agg"].get("variant") == "Some" and st["rv"]["ops"]:
+                    r = op_root(st["rv"]["ops"][0])
+                    if r is not None and r in holders:
+                        somes.add(Point(bi, si))
+        starts = [Point(tgt, 0) for _, tgt in edges]
+        r = reach(b, starts, avoid=somes, unwind=False)
+        lost = [p for p in rets if p in r] + [p for p in bins if p in r]
+        ctx.inst(rule, b, "successor yielded", c.span, not lost,
+                 "every path from the non-null successor to a return or the next bin wraps it in Some (%d site(s))" % len(somes) if not lost else
+                 "a non-null successor loaded at %s can reach %s without being wrapped in Some: what is yielded next depends on something other than "
+                 "the link being non-null (e.g. an accessor that is None for tree nodes), so the rest of a bin is skipped" % (c.span, b.span_at(lost[0])))
+
+
 def run(ctx, facts):
+    ctx.rule("T5", "NodeIter::next yields the successor of the last node whenever the link is non-null, whatever kind of entry it is", floor=1)
+    rule_t5(ctx, facts)
     ctx.rule("T3", "traverser index provenance: sibling-bin stride = saved length of the table the marker was found in; frames restore what was saved; "
                    "base stepping by base_size / base_index", floor=14)
     rule_t3(ctx, facts)
